@@ -121,6 +121,7 @@ def run(chk):
     dval = dflt.value if isinstance(dflt, ast.Constant) else None
     for lit in sorted(lits | {dval}):
         r = analyse(chk, L + "load_signal", lambda I, st, fi, lit=lit: dict(ffp=AV(kind=K_STR), astype=const_av(lit)))
+        unmodelled_in(r, chk, "R-FMT-TYPE", "eqsig/loader.py:load_signal(astype=%r)" % lit)
         o = r.st.heap.get(r.ret.obj) if r.ret.kind == K_OBJ else None
         chk.ob("R-FMT-TYPE", "eqsig/loader.py:load_signal(astype=%r%s)" % (lit, ", the default" if lit == dval else ""),
                "returns a constructed signal object", o is not None and o.cls is not None,
@@ -134,18 +135,21 @@ def run(chk):
         for ll in ((False, True) if q.endswith("asig") else (None,)):
             def build(I, st, fi, ll=ll):
                 d = dict(ffp=AV(kind=K_STR, tags=frozenset(["p:ffp"])), m=AV(kind=K_SCALAR, dtype="real", shape=(), tags=frozenset(["p:m"]),
-                                                                              origin=frozenset(["lit"])))
+                                                                              origin=frozenset(["lit"]), alg={"M": LIN}))
                 if ll is not None:
                     d["load_label"] = const_av(ll)
                 return d
-            r = analyse(chk, q, build)
+            r = analyse(chk, q, build, atoms=(R, DT, "M"))
             o = r.st.heap.get(r.ret.obj) if r.ret.kind == K_OBJ else None
             cc = "eqsig/loader.py:%s%s" % (r.fi.name, "" if ll is None else "(load_label=%s)" % ll)
+            unmodelled_in(r, chk, "R-FMT-TYPE", cc)
             chk.ob("R-FMT-TYPE", cc, "returns a %s" % cls, o is not None and o.cls.name == cls,
                    derived="returns %s" % (o.cls.name if o is not None else r.ret.kind), loc=r.fi.loc())
             if o is None:
                 continue
             expect(chk, "R-FMT-TYPE", cc + ".values", o.attrs.get("_values"), tags_has=["p:m", "file-data"], loc=r.fi.loc())
+            # 'scaled by the load factor': the stored values are the file's values TIMES m (degree 1 in m), the time step does not see m
+            expect(chk, "R-FMT-TYPE", cc + ".values[m]", o.attrs.get("_values"), deg={"M": 1}, atoms=("M",), loc=r.fi.loc())
             expect(chk, "R-FMT-TYPE", cc + ".dt", o.attrs.get("_dt"), tags_not=["p:m", "file-data"], loc=r.fi.loc())
             if ll is not None:
                 lab = o.attrs.get("label")
